@@ -83,14 +83,14 @@ CLAIMED = {
          'with the model for every N up to 6/9; polynomial programs are compared with exact analytic derivatives (Jacobian, Jv, Hessian, Hv, all d-th order partials, d<=4) and smooth programs with Taylor propagation along arbitrary directions.')),
  'C07': dict(
    technique='Lean 4 theorems over any non-commutative ring (matrix Taylor kernels solve A*inv(A)=I and A*X=B order by order) + exact correspondence + residual / independent-formula oracles',
-   text=('Theorems for all D and all sizes (R = matrices): dot is the Cauchy product, A(t) inv(A)(t) = I and A(t) X(t) = B(t) modulo t^D from the zeroth-order contract of the NumPy leaf (also constant right-hand side). '
+   text=('Theorems for all D and all sizes (R = matrices): dot is the Cauchy product, A(t) inv(A)(t) = I and A(t) X(t) = B(t) modulo t^D from the zeroth-order contract of the NumPy leaf (also constant right-hand side); inv(A)(t) A(t) = I as well (two-sided), uniqueness of the solution modulo t^D; det A = sign * prod diag U from the LU identity in any commutative ring (the formula UTPM.det evaluates). '
          'dot (all rank combinations, constant operand either side), inv and all three solve variants are compared with the exact matrix-series model; det/logdet against the Leibniz formula in Taylor arithmetic, expm against the '
-         'exponential series, outer/trace slice-wise, base matrices that require row pivoting (partial: left inverse, det/logdet/Pade have no theorem).')),
+         'exponential series, outer/trace slice-wise, base matrices that require row pivoting, real/complex and mixed operand dtypes (partial: logdet as log of det, Pade approximant, rectangular right-hand sides have no theorem).')),
  'C08': dict(
-   technique='Lean 4 theorems on Mathlib matrices (order-d step equations of _qr_rectangular and _cholesky imply QR=A, Q^TQ=I, LL^T=A at order d) + residual oracle for every factorization',
-   text=('Theorems for every size and order d>=1: the step equations of the square QR kernel give Sum Q_k R_{d-k} = A_d and Sum Q_k^T Q_{d-k} = 0; the Cholesky step gives Sum L_k L_{d-k}^T = A_d (with the code\'s projection matrix). '
+   technique='Lean 4 theorems on Mathlib matrices (order-d step equations of _qr_rectangular, _cholesky and lu imply QR=A, Q^TQ=I, LL^T=A, LU=W^TA at order d) + residual oracle for every factorization',
+   text=('Theorems for every size and order d>=1: the step equations of the square QR kernel give Sum Q_k R_{d-k} = A_d and Sum Q_k^T Q_{d-k} = 0; the Cholesky step gives Sum L_k L_{d-k}^T = A_d (with the code\'s projection matrix); the LU step gives Sum L_k U_{d-k} = (W^T A)_d with strictly-lower / upper masks. '
          'The implementation\'s output is checked against these step equations on every case, and the residuals of all defining equations (QR reduced/full/tall/wide, Cholesky, LU, eigh with distinct and exactly repeated eigenvalues '
-         'splitting at any order, eig for D<=2, SVD), triangularity, ordering and the zeroth-order factorization are evaluated as truncated polynomial identities per direction (partial: no theorem for LU, eigh, eig, svd, triangularity).')),
+         'splitting at any order, eig for D<=2, SVD), triangularity, ordering and the zeroth-order factorization are evaluated as truncated polynomial identities per direction (partial: no theorem for eigh, eig, svd, tall/wide/full QR, triangularity of R).')),
 }
 _todo = 'check under construction in this session: Lean model/theorems and correspondence not committed yet'
 NOT_APPLICABLE = {('C%02d' % i): _todo for i in range(1, 18)}
